@@ -38,7 +38,11 @@
 // TODO: Other sizes? Does anyone need more than 5 slots?
 
 use std::cell::UnsafeCell;
+#[cfg(not(sighook_verif))]
 use std::sync::atomic::{AtomicU16, Ordering};
+#[cfg(sighook_verif)]
+#[allow(unused_imports)]
+use signal_hook_registry::verif_shim::{self, atomic::*};
 
 const SLOTS: usize = 5;
 const BITS: u16 = 3;
@@ -126,6 +130,8 @@ impl<T> Channel<T> {
         for i in 1..SLOTS + 1 {
             enqueue(&me.empty, i as u16);
         }
+        #[cfg(sighook_verif)]
+        verif_shim::event(verif_shim::Event::ChannelNew, &me.empty as *const _ as usize, &me.full as *const _ as usize);
 
         me
     }
@@ -135,6 +141,8 @@ impl<T> Channel<T> {
     /// If the value doesn't fit, it is silently dropped. Never blocks.
     pub fn send(&self, val: T) {
         if let Some(empty_idx) = dequeue(&self.empty) {
+            #[cfg(sighook_verif)]
+            verif_shim::event(verif_shim::Event::CellWrite, self.storage[empty_idx as usize - 1].get() as usize, empty_idx as usize);
             unsafe { *self.storage[empty_idx as usize - 1].get() = Some(val) };
             enqueue(&self.full, empty_idx);
         }
@@ -145,6 +153,8 @@ impl<T> Channel<T> {
     /// Or returns `None` if the channel is empty. Never blocks.
     pub fn recv(&self) -> Option<T> {
         dequeue(&self.full).map(|idx| {
+            #[cfg(sighook_verif)]
+            verif_shim::event(verif_shim::Event::CellTake, self.storage[idx as usize - 1].get() as usize, idx as usize);
             let result = unsafe { &mut *self.storage[idx as usize - 1].get() }
                 .take()
                 .expect("Full slot with nothing in it");
